@@ -41,7 +41,7 @@ CHECKS = {
         text=("Stateless model checking of the real engine over fault patterns: every non-empty subset of nodes of every 3-node DAG raises "
               "(Exception, custom BaseException, SystemExit), max_errors in {0,1,None}, 1-2 workers (3 in thorough), all queue kinds; API level with CallError identity checks. "
               "Oracle per execution: no descendant of a failed call starts; run raises; the error names a call that raised, __cause__ is that very exception object; "
-              "with one worker it is the first failure. Also literal hubs (m predecessors x k successors sharing one literal, as dependency or argument) with failing predecessors."),
+              "with one worker it is the first failure. Also literal hubs (m predecessors x k successors sharing one literal, as dependency or argument) with failing predecessors, and an E2 part: store reads / writes / side-effect producers failing at every operation index of runs from every reachable store state (plans built in three orders) - nothing downstream of the failed node may start afterwards."),
         design_ref="DESIGN.md section 4, C06", note=E1_NOTE,
         technique="stateless model checking of the implementation over enumerated fault patterns",
     ),
